@@ -153,8 +153,24 @@ func TestVerifC03(t *testing.T) {
 			kick := append(append([]hdOp{}, base...), hdJoinOp(1, 1, 5), hdJoinOp(2, 7, 5))
 			grant := append(append([]hdOp{}, base...), hdJoinOp(1, 1, 5),
 				hdOp{K: "api", B: 1, SignAs: 1, R: 9, Api: "participants", RawRS: true, Users: []hdApiUser{{RS: 5, HasP: true, Perm: []int{4, 3}}}})
+			// virtual sessions are reached through their internal client's connection: not from another tenant either
+			virt := []hdOp{{K: "connect", C: 1}, {K: "connect", C: 2}, {K: "connect", C: 3},
+				{K: "hello", C: 1, Ht: "internal", B: 0}, {K: "hello", C: 2, B: 1, U: 1}, {K: "hello", C: 3, Ht: "internal", B: 1},
+				hdJoinOp(1, 1, 0), {K: "internal", C: 1, Ik: "addsession", V: 1, R: 1, U: 2},
+				hdJoinOp(2, 1, 4),
+				{K: "msg", C: 2, To: &hdRecipient{T: "session", Id: &hdIdRef{T: "vpub", C: 1, V: 1}}, Tag: 11},
+				{K: "ctl", C: 2, To: &hdRecipient{T: "session", Id: &hdIdRef{T: "vpub", C: 1, V: 1}}, Tag: 12},
+				{K: "ctl", C: 3, To: &hdRecipient{T: "session", Id: &hdIdRef{T: "vpub", C: 1, V: 1}}, Tag: 13},
+				{K: "msg", C: 3, To: &hdRecipient{T: "session", Id: &hdIdRef{T: "pub", C: 1}}, Tag: 14},
+				{K: "ctl", C: 3, To: &hdRecipient{T: "session", Id: &hdIdRef{T: "pub", C: 1}}, Tag: 15},
+				// a participants request of tenant 1 naming public session ids of tenant 0 (that joined with a Nextcloud session id)
+				{K: "connect", C: 4}, {K: "hello", C: 4, B: 0, U: 3}, hdJoinOp(4, 1, 6),
+				{K: "api", B: 1, SignAs: 1, R: 1, Api: "participants", Users: []hdApiUser{{Id: &hdIdRef{T: "pub", C: 4}, InCall: 1, HasP: true, Perm: []int{4}}}},
+				{K: "api", B: 1, SignAs: 1, R: 1, Api: "incall", Users: []hdApiUser{{Id: &hdIdRef{T: "pub", C: 4}, InCall: 7}}},
+				{K: "api", B: 1, SignAs: 1, R: 1, Api: "disinvite", Users: []hdApiUser{{Id: &hdIdRef{T: "pub", C: 4}}}}}
 			return []*hdCase{
 				{Id: 0, Mode: 1, Ops: clean},
+				{Id: 3, Mode: 1, Ops: virt},
 				{Id: 1, Mode: 1, Ops: kick, Finding: "C03/room-session-map/global-kick"},
 				{Id: 2, Mode: 1, Ops: grant, Finding: "C03/room-session-map/global-api"},
 			}
